@@ -76,6 +76,34 @@ let rd_mode r = match next_int r with
   | 0 -> MPlain | 1 -> MJson | 2 -> MXml | 3 -> MXmlB | 4 -> MHtml | _ -> MServer
 let pz z = pi (int_of_z z)
 
+let rd_tok r : tok =
+  let k = next_int r in let p = z_of_int (next_int r) in
+  let f = rd_bool r in let t = rd_str r in
+  let kd = match k with
+    | 0 -> KText | 1 -> KSpace | 2 -> KPar | 3 -> KComment | 4 -> KSpecial
+    | 5 -> KMacro | 6 -> KBegin | 7 -> KEnd | 8 -> KItem | 9 -> KAccent
+    | 10 -> KVerb (rd_bool r) | 11 -> KArg (rd_nat r) | 12 -> KAction
+    | 13 -> KVoid
+    | 14 -> let l = rd_str r in let b = rd_bool r in let h = rd_bool r in
+            let k = rd_bool r in KLang (l, b, h, k)
+    | 15 -> KMathBegin (rd_str r)
+    | 16 -> KMathElem | 17 -> KMathOper | _ -> KMathSpace in
+  { tk = kd; pos = p; txt = t; pfix = f }
+let pr_tok (t : tok) =
+  let code = match t.tk with
+    | KText -> 0 | KSpace -> 1 | KPar -> 2 | KComment -> 3 | KSpecial -> 4
+    | KMacro -> 5 | KBegin -> 6 | KEnd -> 7 | KItem -> 8 | KAccent -> 9
+    | KVerb _ -> 10 | KArg _ -> 11 | KAction -> 12 | KVoid -> 13
+    | KLang _ -> 14 | KMathBegin _ -> 15 | KMathElem -> 16 | KMathOper -> 17
+    | KMathSpace -> 18 in
+  pi code; pi (int_of_z t.pos); pr_bool t.pfix; pr_str t.txt;
+  (match t.tk with
+   | KVerb e -> pr_bool e | KArg n -> pr_nat n
+   | KLang (l, b, h, k) -> pr_str l; pr_bool b; pr_bool h; pr_bool k
+   | KMathBegin e -> pr_str e
+   | _ -> ())
+let pr_diag (d : diag) = pi (int_of_z d.d_line); pi (int_of_z d.d_col); pr_str d.d_msg
+
 let dispatch op r =
   match op with
   | "replace_phrases" ->
@@ -128,6 +156,23 @@ let dispatch op r =
       let file = rd_str r in
       pr_result pr_str (m_generate_html ctx tex cm ms file)
   | "protect_html" -> pr_str (m_protect_html (rd_str r))
+  | "scan" ->
+      let (ts, ds) = m_scan (rd_str r) in
+      pr_list pr_tok ts; pr_list pr_diag ds
+  | "rpal" ->
+      pr_result (fun ts -> pr_list pr_tok ts) (m_rpal (rd_list r rd_tok))
+  | "get_txt_pos" ->
+      let (t, p) = m_get_txt_pos (rd_list r rd_tok) in pr_str t; pr_zlist p
+  | "parse" ->
+      let nosp = rd_bool r in
+      let files = rd_list r (fun r -> let n = rd_str r in let c = rd_str r in (n, c)) in
+      let lang = rd_str r in let multi = rd_bool r in let simple = rd_bool r in
+      let mods = rd_list r (fun r -> let c = rd_bool r in let n = rd_str r in (c, n)) in
+      let define = rd_str r in let latex = rd_str r in
+      let extr = rd_list r rd_str in let fuel = rd_nat r in
+      pr_result (fun o -> pr_list pr_tok o.po_toks; pr_list pr_str o.po_unknowns;
+                          pr_list pr_diag o.po_diags)
+        (m_run_parse nosp files lang multi simple mods define latex extr fuel)
   | _ -> raise Not_found
 
 let () =
